@@ -369,7 +369,7 @@ func (c *Ctx) c15DefaultDeleter() {
 	for _, b := range backends {
 		ctor := "New" + b.Wrapper
 		pol := pw.Policy{Inline: func(fn *types.Func, d int) bool {
-			return inlineUnexported(fn, d) || pw.FuncName(fn) == "cache.NewInvalidationIndex"
+			return inlineUnexported(fn, d) || pw.FuncName(fn) == "cache.NewInvalidationIndex" || pw.FuncName(fn) == "cache.InvalidationIndex.AddCache"
 		}, MaxDepth: 2}
 		_, paths, _, err := c.runFunc(ctor, pol)
 		if err != nil {
